@@ -105,7 +105,7 @@ def volumeToJson (x : Input) (nd : Nat) (v : Volume) : Json :=
 def header (x : Input) (d : Dims) : List (String × Json) :=
   [("wf", Json.bool (wf x)), ("gmin", intToJson d.gmin), ("gmax", intToJson d.gmax), ("nd", natToJson d.nd),
    ("disp_num", listToJson intToJson (dispRange d.gmin d.gmax x.sp)),
-   ("type_measure", Json.str (typeMeasure x.meas)), ("cmax", intToJson (cmax x))]
+   ("type_measure", Json.str (typeMeasure x.meas)), ("cmax", intToJson (cmax false x)), ("cmax_up", intToJson (cmax true x))]
 
 /-- full volumes (debugging, replay) -/
 def volumes (j : Json) : Except String Json := do
